@@ -175,7 +175,34 @@ class C15(Prop):
                 "ev_nomatch": rng.chance(1, 2), "imports": [], "ev_import": False, "ev_limit": True,
                 "limit": rng.choice([1, 1, 2, 3]), "frag": None}
 
+    def gen_list_pending(self, rng):
+        """Loops over lists whose bodies need the string matches while the list elements are computed
+        expressions: in the first evaluation pass a timeout can fire while a LATER element is being computed,
+        after an earlier body has asked for the strings."""
+        def elem(v):
+            return rng.choice([("int", v), ("bin", "add", ("int", v), ("int", 0)), ("bin", "sub", ("bin", "add", ("int", v), ("int", 2)), ("int", 2)),
+                               ("bin", "mul", ("int", v), ("int", 1)), ("bin", "add", ("bin", "mul", ("int", v), ("int", 2)), ("un", "neg", ("int", v)))])
+        rules = []
+        nr = rng.range(1, 3)
+        for i in range(nr):
+            strings = [["_a0", [97, 98]], ["_d1", [97]]]
+            elems = [elem(v) for v in rng.choice([[0, 1, 2], [3, 0, 6], [0, 2], [1, 0, 3, 8]])]
+            body = rng.choice([("varat", rng.below(2), ("bound", 0)), ("bin", "ge", ("count", rng.below(2)), ("bound", 0)),
+                               ("or", [("bin", "eq", ("bound", 0), ("int", 0)), ("varat", 0, ("bound", 0))])])
+            k = rng.choice(["any", "all", "none", "expr"])
+            c = ("forlist", k, ("int", rng.choice([1, 2])) if k == "expr" else None, elems, body)
+            if rng.chance(1, 3):
+                c = ("or", [c, ("bool", False)])
+            rules.append({"ns": 0, "name": "r%d" % i, "global": False, "private": False, "strings": strings, "cond": c,
+                          "id": i, "ord_index": i})
+        rs = json.loads(json.dumps({"rules": rules, "nns": 1}))
+        return {"rs": rs, "mem": rng.choice([b"abcabcab a\x00\x01xx", b"ab", b"aaaaaaaa", b"xyz", b"ab zz xyz"]).hex(),
+                "full": False, "nm": False, "cb": rng.chance(1, 2), "ev_nomatch": rng.chance(1, 2), "imports": [],
+                "ev_import": False, "ev_limit": False, "limit": 1000, "frag": None}
+
     def gen_case(self, rng):
+        if rng.chance(1, 10):
+            return self.gen_list_pending(rng)
         if rng.chance(1, 8):
             return self.gen_shared_atom_limit(rng)
         if rng.chance(1, 6):
